@@ -52,7 +52,8 @@ let bytes_mode () =
     while true do
       let line = input_line ic in
       match String.split_on_char ' ' (String.trim line) with
-      | id :: handler :: epoch :: check :: nlink :: data :: _rest ->
+      | id :: handler :: epoch :: check :: nlink :: data :: rest_fields ->
+        let file_mtime = (match rest_fields with m :: _ when m <> "-" -> Int64.to_int (Int64.of_string m) | _ -> 0) in
         let epoch = if epoch = "-" then None else Some (z_of_string epoch) in
         let check = (check = "1") in
         let nlink_one = (nlink = "1") in
@@ -67,6 +68,13 @@ let bytes_mode () =
          | "pyc-zero-mtime" -> report id nlink_one check x (pyc_zero_mtime x)
          | "javadoc" -> report id nlink_one check x (javadoc_process epoch x)
          | "pyc" -> report id nlink_one check x (pyc_process x)
+         | "zip" | "jar" ->
+           (match zip_init epoch with
+            | None -> Printf.printf "%s InitFail %s\n" id (hex x)
+            | Some init ->
+              (match zip_process init (z_of_int (file_mtime * 1000000000)) x with
+               | Some o -> report id nlink_one check x o
+               | None -> Printf.printf "%s OutOfClass -\n" id))
          | _ -> Printf.printf "%s NoModel -\n" id)
          with Case_timeout -> Printf.printf "%s ModelTimeout -\n" id
             | Out_of_memory -> Printf.printf "%s ModelTimeout -\n" id
